@@ -226,12 +226,26 @@ func fBinop(r *run, op token.Token, x, y value) value {
 // twin returns the real-valued twin of a bit-vector variable (created on
 // demand, unconstrained unless the harness linked it with vLinkReal).  The
 // twin over-approximates the integer by a real in the same range.
-func (r *run) twin(x *Term) *Term {
+func (r *run) twin(x *Term) *Term { return r.twinOf(x, true) }
+
+func (r *run) twinOf(x *Term, signed bool) *Term {
 	if t, ok := r.twins[x]; ok {
 		return t
 	}
 	t := r.fresh("twin_"+x.Name, "real", realSort)
 	r.twins[x] = t
+	if x.Op == "var" {
+		// exact link, used only to refine a counterexample into one whose
+		// integers and reals agree (so that it replays natively)
+		w := x.S.W
+		lo, hi := "0.0", fmt.Sprintf("%s.0", new(big.Int).Lsh(big.NewInt(1), uint(w)).String())
+		if signed {
+			h := new(big.Int).Lsh(big.NewInt(1), uint(w-1)).String()
+			lo, hi = "(- "+h+".0)", h+".0"
+		}
+		r.sol.links = append(r.sol.links, fmt.Sprintf("(and (= %s (to_real (to_int %s))) (<= %s %s) (< %s %s) (= %s ((_ int2bv %d) (to_int %s))))",
+			t.Name, t.Name, lo, t.Name, t.Name, hi, x.Name, w, t.Name))
+	}
 	// cheap integrality: an integer is 0 or at least 1 in magnitude
 	zero := mkReal(new(big.Rat))
 	one := mkReal(big.NewRat(1, 1))
@@ -251,7 +265,7 @@ func intToFloat(r *run, x *Term, signed bool) value {
 		// a computed integer: give it an unconstrained twin (over-approximation)
 		r.note("int->float conversion of a computed symbolic integer over-approximated by an arbitrary real")
 	}
-	f := &fsym{cls: fFinite, t: r.fround(r.twin(x))}
+	f := &fsym{cls: fFinite, t: r.fround(r.twinOf(x, signed))}
 	if x.S.W <= 32 {
 		f.fromInt, f.fromIntSigned = x, signed
 	}
@@ -299,7 +313,7 @@ func floatToInt(r *run, x value, w int, signed bool) value {
 	}
 	// truncation toward zero, on the real twin of a fresh integer variable
 	iv := r.fresh("float2int", fmt.Sprintf("i%d", w), bvSort(w))
-	tw := r.twin(iv)
+	tw := r.twinOf(iv, signed)
 	zero := mkReal(new(big.Rat))
 	one := mkReal(big.NewRat(1, 1))
 	pos := mkAnd(realCmp("<=", tw, fs.t), realCmp("<", fs.t, realBin("+", tw, one)))
